@@ -427,7 +427,6 @@ func c04Op(c *Ctx, w *World, h *Hist, u2 string, faults bool) {
 		// git only rewrites files that differ between the two trees: a file
 		// it did not touch may still be the pointer left by an earlier
 		// skipped smudge. Files it wrote must be the content.
-		local := LocalObjects(g2)
 		newTree := w.TreePointers(u2, "HEAD")
 		var ps []string
 		for p := range newTree {
@@ -445,8 +444,10 @@ func c04Op(c *Ctx, w *World, h *Hist, u2 string, faults bool) {
 				continue
 			}
 			isPtr := string(wt.data) == PointerText(pr.Oid, pr.Size)
-			obj, has := local[pr.Oid]
-			isContent := has && bytes.Equal(wt.data, obj)
+			// the file may hold the right content although the object has since
+			// been deleted from local storage (the harness loses objects on
+			// purpose, and git does not rewrite an unchanged file)
+			isContent := Oid(wt.data) == pr.Oid
 			old, hadOld := oldTree[p]
 			untouched := hadOld && old.Blob == pr.Blob
 			switch {
@@ -458,7 +459,16 @@ func c04Op(c *Ctx, w *World, h *Hist, u2 string, faults bool) {
 				c.Violation("object-missing-after-success", "git checkout %s exited 0 and wrote %s, but it is still the pointer for %s", b, p, pr.Oid[:12])
 				return
 			default:
-				c.Violation("working-file-wrong", "after git checkout %s (exit 0), %s has %d bytes that are neither the pointer nor the content of %s", b, p, len(wt.data), pr.Oid[:12])
+				whose := "unknown content"
+				if _, ok := h.Contents[Oid(wt.data)]; ok {
+					whose = "the content of object " + Oid(wt.data)[:12]
+				}
+				oldDesc := "path absent in the previous HEAD"
+				if hadOld {
+					oldDesc = "previous HEAD pointed to " + old.Oid[:12]
+				}
+				st, _ := w.GitQ(u2, "status", "--porcelain", "--", p)
+				c.Violation("working-file-wrong", "after git checkout %s (exit 0), %s has %d bytes (%s) that are neither the pointer nor the content of %s; %s; git status: %q; output: %s", b, p, len(wt.data), whose, pr.Oid[:12], oldDesc, strings.TrimSpace(st), clipStr(out, 200))
 				return
 			}
 		}
